@@ -73,7 +73,7 @@ def run(ctx: common.Ctx):
     # enzymes for which C02 already lists unrealizable peptides (no entry can witness those)
     # are left to C02
     enz = [e for e in cv_checks.enzymes_all()
-           if cv_checks.has_lookahead(e) and not cv_checks.wide_lookahead(e)]
+           if not cv_checks.wide_lookahead(e)]
     res = cv_checks.explore(ctx, ctx.n(100, 2000), dict(base, exception=None, enzymes=enz))
     judge(ctx, res, 'lookahead-enzymes')
     s2 = dict(ctx.coverage['worker_stats'])
